@@ -29,6 +29,10 @@ def classify(prop, sig):
                                                                "rename:rename:metadata/tmp:metadata") and \
                 ("holds 0 bytes" in sig.get("what", "") or "holds b''" in sig.get("what", "")):
             return "C09-F1"
+    if prop == "C12":
+        if sig.get("kind") == "step" and "one-off EIO at T1's rename:rename:metadata/tmp:metadata#0" in sig.get("scenario", "") and \
+                "metadata document holds 0 bytes" in sig.get("what", ""):
+            return "C12-F1"
     if prop == "C10":
         cb, what = sig.get("crash_before", ""), sig.get("what", "")
         if cb.startswith("after a one-off EIO at rename:rename:") and any(cb.startswith("after a one-off EIO at " + x) for x in (
